@@ -46,7 +46,7 @@ class Echo(object):
     def on_post(self, req, resp, **kw):
         resp.media = {'who': self.who, 'params': {k: str(v) for k, v in sorted(kw.items())},
                       'hdr': req.get_header('X-Token'), 'body': req.bounded_stream.read().decode(),
-                      'q': req.get_param('q'), 'ctx': getattr(req.context, 'token', None)}
+                      'q': req.get_param('q'), 'ctx': getattr(req.context, 'token', None), 'tenant': req.get_param('tenant')}
         resp.set_header('X-Echo', req.get_header('X-Token') or '')
 
 
@@ -75,12 +75,30 @@ def build_wsgi(mw=None):
 
 def wsgi_request(app, i):
     path, tok = REQS[i]
-    env = wsgi_driver.build_environ('POST', path, query='q=' + tok, headers=[('X-Token', tok), ('Content-Length', str(len(tok)))],
+    env = wsgi_driver.build_environ('POST', path, query='' if path.startswith('/plain') else 'q=' + tok, headers=[('X-Token', tok), ('Content-Length', str(len(tok)))],
                                     body=tok.encode())
     r = wsgi_driver.call(app, env)
     if r.error is not None:
         return ('error', type(r.error).__name__, str(r.error)[:200])
     return (r.status, sorted(r.headers), r.body)
+
+
+def _own_values_only(body, tok, what, ctx):
+    """Self-consistency, independent of the serial reference (a leak through state that outlives a request would
+    spoil the reference run as well): everything a responder echoes about its request is that request's own token."""
+    try:
+        doc = json.loads(body)
+    except ValueError:
+        return
+    if not isinstance(doc, dict) or 'who' not in doc:
+        return
+    seen = {'hdr': doc.get('hdr'), 'ctx': doc.get('ctx'), 'tenant': doc.get('tenant')}
+    for k, v in (doc.get('params') or {}).items():
+        if k.startswith('mw_'):
+            seen['params.' + k] = v
+    foreign = {k: v for k, v in seen.items() if v is not None and v != tok}
+    if foreign:
+        raise Violation('foreign_value_observed', '%s (token %r) echoed values of another request: %r; %s' % (what, tok, foreign, ctx))
 
 
 _SERIAL = {}
@@ -100,7 +118,37 @@ def serial_wsgi(i, kind):
 _LOCK_TYPES = (type(threading.Lock()), type(threading.RLock()))
 
 
-def _cooperative_locks(router, sched):
+class _WouldBlockForever(Exception):
+    pass
+
+
+class SerialLock(object):
+    """For strictly sequential use: acquiring a lock that is still held can never succeed (nobody else runs)."""
+
+    def __init__(self):
+        self.held = False
+        self.blocked = False
+
+    def acquire(self, blocking=True, timeout=-1):
+        if self.held:
+            self.blocked = True
+            raise _WouldBlockForever()
+        self.held = True
+        return True
+
+    def release(self):
+        self.held = False
+
+    def __enter__(self):
+        self.acquire()
+        return self
+
+    def __exit__(self, *a):
+        self.release()
+        return False
+
+
+def _cooperative_locks(router, sched, make=None):
     """Replace every threading lock the router object holds (whatever its attribute is called) by a lock the scheduler
     understands.  A router without a lock is left as it is: the schedules then decide whether it needs one."""
     locks = []
@@ -113,7 +161,7 @@ def _cooperative_locks(router, sched):
         except AttributeError:
             continue
         if isinstance(value, _LOCK_TYPES):
-            lock = CoopLock(sched)
+            lock = make() if make is not None else CoopLock(sched)
             setattr(router, name, lock)
             locks.append(lock)
     return locks
@@ -136,6 +184,7 @@ def run_race(case):
             raise Violation('request_failed', 'request %r raised %r under the schedule; %s' % (REQS[i][0], got[1], ctx))
         if got != exp:
             raise Violation('response_differs', 'request %r got %r, alone it gets %r; %s' % (REQS[i][0], got[1], exp[1], ctx))
+        _own_values_only(got[1][2], REQS[i][1], 'request %r' % (REQS[i][0],), ctx)
     labels = ['threads:%d' % len(reqs), 'switches:%d' % min(sched.switches, 6)]
     # a switch is inside the compilation window if it happened before the first thread's compile finished
     in_window = any(w != 'end' and w != 'lock' for (_f, _t, _p, w) in sched.switch_log)
@@ -144,6 +193,109 @@ def run_race(case):
     if in_window:
         labels.append('preempted_inside_router')
     return Info(in_window, labels)
+
+
+# ------------------------------------------------------------------ (a') first-request race while the lazy compilation FAILS
+
+
+def _flaky_app():
+    """An app whose first lazy compilation fails: the converter's constructor raises on its second call (add_route
+    instantiates it once to validate it, the compilation instantiates it again); the third call succeeds."""
+    count = {'n': 0}
+
+    class Flaky(falcon.routing.BaseConverter):
+        def __init__(self):
+            count['n'] += 1
+            if count['n'] == 2:
+                raise RuntimeError('transient failure while building the converter')
+
+        def convert(self, value):
+            return value
+
+    app = falcon.App()
+    app.router_options.converters['flaky'] = Flaky
+    app.add_route('/f/{x:flaky}', Echo('flaky'))
+    app.add_route('/items/{id:int}', Echo('items'))
+    return app
+
+
+def _flaky_request(app, tok):
+    env = wsgi_driver.build_environ('POST', '/f/' + tok, query='q=' + tok, headers=[('X-Token', tok), ('Content-Length', str(len(tok)))],
+                                    body=tok.encode())
+    r = wsgi_driver.call(app, env)
+    if r.error is not None:
+        return ('error', type(r.error).__name__, str(r.error)[:200])
+    return (r.status, sorted(r.headers), r.body)
+
+
+_FLAKY_SERIAL = {}
+
+
+def run_race_error(case):
+    toks = ['ta', 'tb', 'tc'][:case.get('threads', 2)]
+    if 'orders' not in _FLAKY_SERIAL:
+        # every serial order: the first request gets the 500 of the failed compilation, the later ones are served
+        orders = []
+        for order in itertools.permutations(range(3)):
+            for n in (2, 3):
+                app = _flaky_app()
+                slocks = _cooperative_locks(app._router, None, make=SerialLock)
+                out = {}
+                for i in [j for j in order if j < n]:
+                    r = _flaky_request(app, ['ta', 'tb', 'tc'][i])
+                    if any(lk.blocked for lk in slocks):
+                        raise Violation('deadlock', 'requests processed ONE AT A TIME after a failed first compilation: request #%d '
+                                        'tries to take a router lock that the failed request still holds (it would block forever)'
+                                        % (len(out) + 1))
+                    out[i] = r
+                orders.append(out)
+        _FLAKY_SERIAL['orders'] = orders
+    app = _flaky_app()
+    fns = [lambda t=t: _flaky_request(app, t) for t in toks]
+    sched = Scheduler(fns, case['plan'], trace_prefixes=(COMPILED_PY,), trace_filenames=('<string>',))
+    locks = _cooperative_locks(app._router, sched)
+    results = sched.run()
+    ctx = 'first-ever requests %r while the lazy compilation fails once; plan=%r switches=%r' % (toks, case['plan'], sched.switch_log[:8])
+    if sched.deadlock:
+        raise Violation('deadlock', '%s; %s' % (sched.deadlock, ctx))
+    got = {}
+    for k, r in enumerate(results):
+        if r[0] == 'exc':
+            raise Violation('request_failed', 'request %r raised %r under the schedule; %s' % (toks[k], r[1], ctx))
+        got[k] = r[1]
+    if not any(got == o for o in _FLAKY_SERIAL['orders'] if len(o) == len(got)):
+        raise Violation('response_differs', 'responses %r equal no serial order of the same requests (one 500 for the failed '
+                        'compilation, the others served); %s' % ({toks[k]: (v[0], v[2][:60]) for k, v in got.items()}, ctx))
+    in_window = any(w != 'end' and w != 'lock' for (_f, _t, _p, w) in sched.switch_log)
+    labels = ['threads:%d' % len(toks), 'compile_fails_once']
+    if any(lock.contended for lock in locks):
+        labels.append('lock_contended')
+    return Info(in_window, labels)
+
+
+class RaceCompileError(Suite):
+    """Error path of the lazy compilation: 2-3 first-ever requests race while the first compilation raises (a converter
+    whose constructor fails once).  ALL single pre-emptions on a stride, both thread orders, and a double pre-emption
+    grid: the responses must equal those of some serial order (exactly one 500, everybody else served) and nobody may
+    be left blocked on the router lock."""
+
+    name = 'race_compile_error'
+    exhaustive = True
+    budget = {'quick': 1, 'thorough': 1}
+    case_timeout = 120
+
+    def cases(self, tier):
+        step = 5 if tier == 'quick' else 1
+        for k in range(0, 700, step):
+            yield {'plan': [[0, k]]}
+            yield {'plan': [[1, k]]}
+        for k1 in range(0, 700, step * 12):
+            for k2 in range(1, 700, step * 12):
+                yield {'plan': [[0, k1], [1, k2]]}
+                yield {'plan': [[0, k1], [1, k2], [2, 9]], 'threads': 3}
+
+    def run(self, case):
+        return run_race_error(case)
 
 
 K_MAX = 1300  # a first request executes ~1170 line events inside the router (compile + find)
@@ -240,6 +392,7 @@ class TokenMw(object):
             resp.set_header('X-Context-Corrupted', '1')
         # documented: process_resource may modify params to inject additional kwargs for the responder
         params['mw_' + self.tag] = req.get_header('X-Token')
+        req.params.setdefault('tenant', req.get_header('X-Token'))  # a default query parameter, on this request's mapping
         Y('mw.resource.2')
 
     def process_response(self, req, resp, resource, req_succeeded):
@@ -301,6 +454,7 @@ def run_steady(case):
             raise Violation('request_failed', 'request %r raised %r; %s' % (REQS[i][0], got[1], ctx))
         if got != exp:
             raise Violation('response_differs', 'request %r got %r, alone it gets %r; %s' % (REQS[i][0], got[1], exp[1], ctx))
+        _own_values_only(got[1][2], REQS[i][1], 'request %r' % (REQS[i][0],), ctx)
     mid = any(w not in ('end',) for (_f, _t, _p, w) in sched.switch_log)
     return Info(mid, ['threads:%d' % len(reqs), 'switches:%d' % min(sched.switches, 8)] + (['switch_between_phases'] if mid else []))
 
@@ -477,6 +631,7 @@ class AMw(object):
         if req.context.token != req.get_header('X-Token'):
             resp.set_header('X-Context-Corrupted', '1')
         params['mw_' + self.tag] = req.get_header('X-Token')
+        req.params.setdefault('tenant', req.get_header('X-Token'))
         await AY(req)
 
     def __init__(self, tag):
@@ -530,7 +685,8 @@ class AEcho(object):
             req2 = json.loads(body.decode())
             media = req2
         resp.media = {'who': self.who, 'params': {k: str(v) for k, v in sorted(kw.items())}, 'hdr': req.get_header('X-Token'),
-                      'body': body.decode(), 'q': req.get_param('q'), 'ctx': getattr(req.context, 'token', None), 'media': media}
+                      'body': body.decode(), 'q': req.get_param('q'), 'ctx': getattr(req.context, 'token', None), 'media': media,
+                      'tenant': req.get_param('tenant')}
         if req.get_param('q') == 't5':
             raise falcon.HTTPConflict(title='conflict', description=req.get_header('X-Token'))
 
@@ -554,7 +710,7 @@ def asgi_one(app, i, t, turns, chunks):
     body = json.dumps({'tok': tok, 'pad': 'x' * 7}).encode()
     # every other request goes through the custom sync-only media handler
     ctype = 'application/x-vf' if i % 2 else 'application/json'
-    scope = asgi_driver.build_scope('POST', path, query='q=%s&m=1' % tok,
+    scope = asgi_driver.build_scope('POST', path, query='' if path.startswith('/plain') else 'q=%s&m=1' % tok,
                                     headers=[('X-Token', tok), ('Content-Length', str(len(body))), ('Content-Type', ctype)],
                                     extra={'vf.task': t})
     events = asgi_driver.body_events(body, chunks)
@@ -650,6 +806,7 @@ def run_asgi_tasks(case):
         exp = _ASGI_SERIAL[(i, tuple(chunks), dep)]
         if got != exp:
             raise Violation('response_differs', 'ASGI request %r got %r, alone it gets %r; %s' % (REQS[i][0], got, exp, ctx))
+        _own_values_only(got[2], REQS[i][1], 'ASGI request %r' % (REQS[i][0],), ctx)
     return Info(switches['mid'], ['tasks:%d' % len(reqs), 'switches:%d' % min(switches['n'], 10)] + (['interleaved'] if switches['mid'] else []))
 
 
@@ -693,5 +850,5 @@ class AsgiRandom(Suite):
         return run_asgi_tasks(case)
 
 
-SUITES = [RaceSinglePreemption(), RaceDoublePreemption(), RaceRandom(), SteadyEnum(), AppLines(), AsgiEnum(), AsgiRandom()]
+SUITES = [RaceSinglePreemption(), RaceDoublePreemption(), RaceCompileError(), RaceRandom(), SteadyEnum(), AppLines(), AsgiEnum(), AsgiRandom()]
 KNOWN = {}
